@@ -113,6 +113,39 @@ def specBatches (c : Cfg) (tr : Track) : List (Batch × Bool) → List Ev
     let (tr', e) := specBatch c tr b fl
     e.toList ++ specBatches c tr' bs
 
+/-! ### What is forwarded downstream (the second place the events are observed)
+
+For every delivered event — and for nothing else — the alert node forwards the data that triggered it: the point
+(stream form) or the whole batch (batch form), augmented with the event: `levelField`/`levelTag` = the name of the
+event's level, `idField`/`idTag` = the alert ID, `durationField` = the event's duration in nanoseconds,
+`messageField` = the event's message (the harness keeps the default template `{{ .ID }} is {{ .Level }}`). In batch
+form EVERY point of the forwarded batch, and the batch's own tags, carry these values. -/
+
+/-- `alert.Level.String()` ("Level -- one of OK, INFO, WARNING or CRITICAL", pipeline/alert.go) -/
+def levelName : Nat → String
+  | 0 => "OK"
+  | 1 => "INFO"
+  | 2 => "WARNING"
+  | 3 => "CRITICAL"
+  | _ => "?"
+
+structure Fwd where
+  dataID : String      -- measurement:group of the forwarded message
+  idField : String
+  levelField : String
+  time : Int           -- time of the forwarded point / of the forwarded batch
+  durField : Int
+  msgField : String
+  levelTag : String
+  idTag : String
+  npts : Nat           -- number of points of the forwarded message (1 in stream form)
+deriving DecidableEq, Repr, Inhabited
+
+/-- What must be forwarded for event `e` of alert `id`; `time`/`npts` describe the data that triggered it. -/
+def specForward (id : String) (e : Ev) (time : Int) (npts : Nat) : Fwd :=
+  { dataID := id, idField := id, levelField := levelName e.level, time := time, durField := e.dur,
+    msgField := id ++ " is " ++ levelName e.level, levelTag := levelName e.level, idTag := id, npts := npts }
+
 /-! ### Flap detection on the plain level history
 
 The documented rule (pipeline/alert.go `Flapping`, alert.go `weightDiff`/`maxWeight`): look at the last `history`
